@@ -9,6 +9,7 @@ import (
 	"os"
 	"runtime"
 	"strings"
+	"time"
 
 	"github.com/gotd/td/crypto/srp"
 	"github.com/gotd/td/internal/verif/kit"
@@ -328,12 +329,17 @@ func selfTest() error {
 func main() {
 	kit.Main("C15", "exploration", func(c *kit.Ctx) {
 		answer := kit.NewFamily(c, "answer", evalAnswer)
-		invalid := kit.NewFamily(c, "invalid-group", evalInvalid)
+		// isolated: if the group check is missing, Hash runs modular exponentiations with modulus 0
+		// or huge moduli and can allocate without bound; the worker's address-space limit turns that
+		// into a "crash" verdict for the witness instead of taking the machine down.
+		invalid := kit.NewIsolatedFamily(c, "invalid-group", runtime.NumCPU(), 1536, evalInvalid)
 		if c.Replaying() {
 			return
 		}
-		if bad := refexchange.VerifyGroups(); bad != "" {
-			fmt.Fprintln(os.Stderr, "C15: embedded group is not a 2048-bit safe prime:", bad)
+		defer invalid.Close()
+		c0 := time.Now()
+		if bad := refexchange.VerifyGroups() + refexchange.VerifyCandidates(); bad != "" {
+			fmt.Fprintln(os.Stderr, "C15: embedded group/candidate does not have its stated form:", bad)
 			os.Exit(2)
 		}
 		if err := selfTest(); err != nil {
@@ -341,6 +347,8 @@ func main() {
 			os.Exit(2)
 		}
 		workers := runtime.NumCPU()
+		t0 := time.Now()
+		c.Set("phase_selftest_s", time.Since(c0).Seconds())
 
 		passwords := []string{"empty", "ascii", "utf8"}
 		salts := [][2]string{{"8:count", "16:stream:s2"}, {"0:zero", "0:zero"}}
@@ -426,6 +434,7 @@ func main() {
 			c.NotExhaustive("time budget: %d of %d answer cases evaluated", n, len(cases))
 		}
 
+		c.Set("phase_answer_s", time.Since(t0).Seconds())
 		var inv []wInvalid
 		var cands []string
 		for _, g := range refexchange.Groups() {
@@ -444,5 +453,6 @@ func main() {
 			}
 		}
 		kit.Parallel(len(inv), workers, func(i int) { invalid.Eval(inv[i]) })
+		c.Set("phase_total_s", time.Since(c0).Seconds())
 	})
 }
